@@ -1,3 +1,3 @@
 #!/bin/sh
 # The pinned baseline (158 tests), guard irrelevant. Prints the pass count.
-cd /repo && /venv/bin/python -m pytest -q -p no:cacheprovider --timeout=900 --continue-on-collection-errors 2>&1 | tail -1
+cd "${VERIF_REPO:-/repo}" && /venv/bin/python -m pytest -q -p no:cacheprovider --timeout=900 --continue-on-collection-errors 2>&1 | tail -1
